@@ -675,7 +675,7 @@ class ReceiveV3(V3Unit):
             f = content.fields
             vbs = f.get("varbinds")
             ok = isinstance(vbs, list) and len(vbs) == self.k
-            chk(("C06",), T, "ensures", "returned-PDU-has-the-request-id-error-fields-and-bindings-sent",
+            chk(("C06", "C09"), T, "ensures", "returned-PDU-has-the-request-id-error-fields-and-bindings-sent",
                 ok and And(interp.eq(f.get("request_id"), rid), interp.eq(f.get("error_index"), ei),
                            *[And(interp.eq(vbs[i][0], oids[i]), interp.eq(vbs[i][1], vals[i])) for i in range(self.k)]))
             return "returns"
